@@ -319,6 +319,54 @@ class Svc(object):
         return out, list(self.log), box.get('resp')
 
 
+def wsgi_bytes(svc, proto, name, bound, hs=()):
+    """the same request through the WSGI transport (POST): -> (status, response bytes) or ('escape', exc type)"""
+    import io
+    from spyne.server.wsgi import WsgiApplication
+    if not hasattr(svc, '_wsgi'):
+        svc._wsgi = {}
+    if proto not in svc._wsgi:
+        svc._wsgi[proto] = WsgiApplication(svc.apps[proto])
+    dc = svc.by_name.get(name)
+    body = request_body(svc, proto, name, dc, bound, hs)
+    st = {}
+    env = {'REQUEST_METHOD': 'POST', 'PATH_INFO': '/', 'QUERY_STRING': '', 'wsgi.input': io.BytesIO(body),
+           'CONTENT_LENGTH': str(len(body)), 'CONTENT_TYPE': 'application/json' if proto == 'json' else 'text/xml',
+           'SERVER_NAME': 'h', 'SERVER_PORT': '80', 'wsgi.url_scheme': 'http'}
+    del svc.log[:]
+    try:
+        it = svc._wsgi[proto](env, lambda status, headers, exc_info=None: st.__setitem__('status', status))
+        try:
+            out = b''.join(it)
+        finally:
+            if hasattr(it, 'close'):
+                it.close()
+    except Exception as e:
+        return ('escape', type(e).__name__)
+    return (st.get('status'), out)
+
+
+def transports_agree(check, svc, dc, bound, hs, plan, replay):
+    """the reply to a call does not depend on the transport: WsgiApplication sends the bytes the ServerBase
+    pipeline produces (generator results are consumed differently by the two: WSGI peeks at the first item)"""
+    for proto in PROTOS:
+        whs = hs if proto == 'soap' else []
+        svc.plan = plan
+        wout, wlog, resp = svc.call_wire(proto, dc['name'], bound, whs)
+        svc.plan = plan
+        got = wsgi_bytes(svc, proto, dc['name'], bound, whs)
+        check.count(('transport', proto, body_style(dc), plan[0], len(plan[1]) if plan[0] == 'gen' else 0,
+                     plan[0] == 'gen' and bool(plan[1]) and plan[1][0][0] == 'none'))
+        if resp is None or wout[0] == 'crash':
+            continue        # the ServerBase side is the wire oracle's business
+        if got[0] == 'escape' or got[1] != resp:
+            first = 'first-item-none' if (plan[0] == 'gen' and plan[1] and plan[1][0][0] == 'none') else 'plan-' + plan[0]
+            check.fail(key_of('wsgi-vs-serverbase', proto, dc, first),
+                       '%s over %s: WsgiApplication answered %r, the ServerBase pipeline %r' % (
+                           dc['name'], proto, got if got[0] == 'escape' else got[1][:300], resp[:300]),
+                       dict(replay, protocol=proto, plan=plan))
+
+
 # ------------------------------------------------------------------ the foreign client: requests
 def x_value(svc, tag, ty, v):
     if v[0] == 'none':
@@ -925,6 +973,15 @@ def one_call(check, svc, dc, args, kw, hs, plan, cases, st, conformant, replay_e
     if ['U' if e[0] == 'user' else e[1] for e in app_events(nlog)] != want_ev:
         check.fail(key_of('null-events', 'null', dc, 'plan-' + plan[0]),
                    'NullServer %s: application events %r, expected %r' % (name, nlog, want_ev), replay)
+    # ---- the transports agree (generator results: also with a null first item, which the decoders of the
+    #      foreign client cannot tell from an absent one, so only the bytes are compared)
+    if plan[0] == 'gen':
+        transports_agree(check, svc, dc, bound, hs, plan, replay)
+        transports_agree(check, svc, dc, bound, hs, ('gen', [('none',)] + list(plan[1])), replay)
+        svc.plan = plan
+    elif plan[0] not in ('fault', 'exc') and check.rng.random() < 0.15:
+        transports_agree(check, svc, dc, bound, hs, plan, replay)
+        svc.plan = plan
     # ---- the wire paths
     for proto in PROTOS:
         whs = hs if proto == 'soap' else []
